@@ -7,6 +7,7 @@ use std::path::{Path, PathBuf};
 use std::ffi::{OsStr, OsString};
 verus! {
 global size_of usize == 8;
+//@include lib/ext_ioerror.rs
 //@include lib/world_model.rs
 //@include lib/archive_fns.rs
 //@include lib/bidir_fns.rs
